@@ -51,7 +51,7 @@ fn base(t: &mut Tape, tapes: &[Vec<u32>], cfg: Cfg, reqs: Vec<Req>) -> PairCase 
         reqs,
         ops: vec![],
         fault: None,
-        drop_send_request_at_end: true,
+        drop_send_request_at_end: true, nest: vec![]
     }
 }
 
